@@ -38,6 +38,7 @@ func (c *Conversation) processAKE(msgType byte, msg []byte) (toSend []messageWit
 
 	var toSendSingle messageWithHeader
 	var toSendExtra []messageWithHeader
+	stateBefore := c.ake.state.identity()
 
 	switch msgType {
 	case msgTypeDHCommit:
@@ -54,7 +55,10 @@ func (c *Conversation) processAKE(msgType byte, msg []byte) (toSend []messageWit
 		err = newOtrErrorf("unknown message type 0x%X", msgType)
 	}
 
-	c.ake.lastStateChange = time.Now()
+	// a message that was refused or ignored is no activity of the key exchange
+	if err == nil && (toSendSingle != nil || c.ake.state.identity() != stateBefore) {
+		c.ake.lastStateChange = time.Now()
+	}
 
 	messages := append([]messageWithHeader{toSendSingle}, toSendExtra...)
 	toSend = compactMessagesWithHeader(messages...)
